@@ -103,7 +103,7 @@ Bases == {b \in [s : {<<>>, <<"A">>}, inj : BOOLEAN, sem : Sems, mc : BOOLEAN] :
 BaseModel(b) == [decls |-> BaseDecls(b.s, b.inj),
                  cfg |-> Cfg(b.s \o <<"M">>, Prov(b.sem), Req(b.sem), IF b.mc THEN Mc ELSE NoMc)]
 
-Faults == {"none", "enc-unknown", "enc-interface", "enc-enum", "enc-ambiguous",
+Faults == {"none", "enc-unknown", "enc-empty", "enc-interface", "enc-enum", "enc-ambiguous",
            "port-type-missing", "port-type-wrong-kind", "port-type-ambiguous", "port-type-ambiguous-chain",
            "sel-unknown", "sel-unassigned", "sel-contradictory", "sel-all-plus", "sel-all-remaining", "sel-mixed-provides",
            "sel-equal-none",
@@ -122,6 +122,7 @@ NoteFormal(m, ty) == [m EXCEPT !.decls[4].events[2].formals[1].type = ty]       
 Apply(m, b, f) ==
   CASE f = "none" -> m
     [] f = "enc-unknown"   -> [m EXCEPT !.cfg.enc = <<"Nope">>]
+    [] f = "enc-empty"     -> [m EXCEPT !.cfg.enc = <<>>]               \* an empty fully qualified name denotes nothing
     [] f = "enc-interface" -> [m EXCEPT !.cfg.enc = b.s \o <<"I1">>]
     [] f = "enc-enum"      -> [m EXCEPT !.cfg.enc = b.s \o <<"E">>]
     [] f = "enc-ambiguous" -> [m EXCEPT !.decls = Append(@, m.decls[CompIdx(m)])]
